@@ -174,6 +174,92 @@ def check(repo, co):
     return "ok", f"{len(w)} written flags, all among {len(d)} declared long options; {len(joined)} joined value list(s) match the declared value_delimiter"
 
 
+CONSTRAINT_KEYS = ("conflicts_with", "conflicts_with_all", "requires", "requires_all", "requires_if", "requires_ifs", "required_if_eq", "required_if_eq_any",
+                   "required_if_eq_all", "required_unless_present", "required_unless_present_any", "required_unless_present_all", "exclusive", "group", "groups")
+
+
+def reader_constraints(repo, items):
+    """every clap attribute key that constrains one option by another, as (Struct.field, key, argument text) — read from
+    the token stream of the derive attributes; the argument text is the tokens joined without blanks"""
+    out = []
+    for (rel, name) in items:
+        src = open(os.path.join(repo, rel)).read()
+        toks = lex(src)
+        i = 0
+        found = False
+        while i < len(toks) - 2:
+            if toks[i].kind == "ident" and toks[i].text in ("struct", "enum") and toks[i + 1].text == name:
+                j = i + 2
+                while toks[j].text != "{":
+                    j += 1
+                end = match_close(toks, j)
+                found = True
+                k = j + 1
+                pending = []
+                while k < end:
+                    if toks[k].text == "#" and toks[k + 1].text == "[":
+                        e = match_close(toks, k + 1)
+                        if toks[k + 2].text in ("clap", "arg", "command", "group") and toks[k + 3].text == "(":
+                            pending.append((k + 4, match_close(toks, k + 3)))
+                        k = e + 1
+                        continue
+                    if toks[k].kind == "ident" and toks[k + 1].text == ":" and toks[k].text != "pub":
+                        field = toks[k].text
+                        for (a, b) in pending:
+                            p = a
+                            depth = 0
+                            while p < b:
+                                t = toks[p]
+                                if t.text in "([{":
+                                    depth += 1
+                                elif t.text in ")]}":
+                                    depth -= 1
+                                elif depth == 0 and t.kind == "ident" and t.text in CONSTRAINT_KEYS:
+                                    # argument: `= expr` up to the next top-level comma, or `( .. )`
+                                    if toks[p + 1].text == "=":
+                                        q = p + 2
+                                        d2 = 0
+                                        while q < b and not (toks[q].text == "," and d2 == 0):
+                                            if toks[q].text in "([{":
+                                                d2 += 1
+                                            elif toks[q].text in ")]}":
+                                                d2 -= 1
+                                            q += 1
+                                        out.append((f"{name}.{field}", t.text, "".join(x.text for x in toks[p + 2:q])))
+                                        p = q
+                                        continue
+                                    if toks[p + 1].text == "(":
+                                        q = match_close(toks, p + 1)
+                                        out.append((f"{name}.{field}", t.text, "".join(x.text for x in toks[p + 2:q])))
+                                        p = q + 1
+                                        continue
+                                    out.append((f"{name}.{field}", t.text, ""))
+                                p += 1
+                        pending = []
+                    k += 1
+                break
+            i += 1
+        if not found:
+            raise LookupError(f"{name} not found in {rel}")
+    return out
+
+
+def check_constraints(repo, co):
+    """configuration obligation `clap_constraints`: every constraint BETWEEN options that the reader's clap definition declares
+    is one the contracts model (`modelled` in props.json, each with the obligation that carries it). A constraint the
+    contracts do not model leaves the property UNDECIDED (nothing decides whether the writers respect it)."""
+    try:
+        found = reader_constraints(repo, [tuple(x) for x in co["declared_in"]])
+    except Exception as e:   # noqa
+        return "undecided", f"clap_constraints: {e}"
+    modelled = {(m[0], m[1], m[2]) for m in co["modelled"]}
+    extra = [c for c in found if c not in modelled]
+    if extra:
+        return "undecided", "the node's clap definition declares constraints between options that no contract models: " + "; ".join(f"{f} {k}({a})" for (f, k, a) in extra[:5])
+    gone = sorted(modelled - set(found))
+    return "ok", f"{len(found)} constraint(s) between options declared by the reader, all modelled" + (f"; {len(gone)} modelled constraint(s) no longer declared (the reader accepts more)" if gone else "")
+
+
 if __name__ == "__main__":
     import json
     repo = sys.argv[1] if len(sys.argv) > 1 else "/repo"
@@ -181,3 +267,6 @@ if __name__ == "__main__":
     for co in props["C20"].get("config_obligations", []):
         if co.get("kind") == "clap_flags":
             print(check(repo, co))
+            print(reader_constraints(repo, [tuple(x) for x in co["declared_in"]]))
+        if co.get("kind") == "clap_constraints":
+            print(check_constraints(repo, co))
